@@ -1,8 +1,18 @@
-/- Line-protocol driver for the Codec component (stub; see tools/AGENT_GUIDE.md). -/
+/- Line-protocol driver for the Codec component: one request line in, one response line out. -/
+import Driver.Codec
+open Driver
+
+def dispatch (line : String) : String :=
+  let toks := (line.trimAscii.toString.splitOn " ").filter (· ≠ "")
+  match toks with
+  | [] => ""
+  | "CODEC" :: rest => codec rest
+  | _ => "BADVERB"
+
 partial def loop (h : IO.FS.Stream) (out : IO.FS.Stream) : IO Unit := do
   let line ← h.getLine
   if line.isEmpty then return ()
-  out.putStrLn "BADVERB"
+  out.putStrLn (dispatch line)
   loop h out
 
 def main : IO Unit := do
